@@ -321,7 +321,8 @@ def main():
     rep = common.Report(PID, "model_checking")
     rep.rule = ("one case = one program shape (operations with 1-2 modes, optional register transform positional/keyword/both, with or without args key); "
                 "all mode and register numbers are solver variables; paths = feasible equality patterns met by the real set/dict operations")
-    rep.bounds = {"operations": "<=3 (quick) / <=5 (thorough)", "symbolic wires": "<=6 (quick, 6-wire shapes sampled 1/3) / <=8 (thorough, 7/8-wire shapes sampled)"}
+    rep.bounds = {"operations": "<=3 (quick) / <=5 (thorough)", "symbolic wires": "<=6 (quick, 6-wire shapes sampled 1/3) / <=8 (thorough, 7/8-wire shapes sampled)",
+                  "mode sequences": "lists; every 7th (quick) / 3rd (thorough) multi-operation shape also with tuples"}
     rep.assumptions = [
         "proxies have a constant hash, so every set/dict operation on wires compares by equality (over-approximates every hash order)",
         "networkx is trusted (DiGraph, has_path, is_directed_acyclic_graph)",
